@@ -120,3 +120,10 @@ impl core::fmt::Display for Uint64 { #[verifier::external_body] fn fmt(&self, f:
 impl core::fmt::Display for Coin { #[verifier::external_body] fn fmt(&self, f: &mut core::fmt::Formatter<'_>) -> core::fmt::Result { unimplemented!() } }
 
 } // verus!
+verus! {
+/// `str::eq_ignore_ascii_case`: abstract relation; all that is known is that equal strings are related
+pub uninterp spec fn eq_ignore_case(a: Seq<char>, b: Seq<char>) -> bool;
+pub broadcast axiom fn ax_eq_ignore_case_refl(a: Seq<char>) ensures #[trigger] eq_ignore_case(a, a);
+pub assume_specification<'a, 'b> [ str::eq_ignore_ascii_case ] (a: &'a str, b: &'b str) -> (r: bool)
+    ensures r == eq_ignore_case(a@, b@);
+} // verus!
